@@ -15,6 +15,12 @@ Definition is_hm (e : event) : bool := match e with EHandler _ _ _ | EMark _ => 
 Fixpoint upto_quit (t : list event) : list event :=
   match t with [] => [] | ERunReturn :: _ => [ERunReturn] | e :: r => e :: upto_quit r end.
 Definition hseq (t : list event) : list event := filter is_hm (upto_quit (rev t)).
+(* the user-visible sequence: handler invocations, marks and the events of the layers above the loop (EUser: what the
+   screen layer does — setup, refresh, show, prompt, input delivered to a screen, closed, modal return ...) *)
+Definition is_vis (e : event) : bool := match e with EHandler _ _ _ | EMark _ | EUser _ _ _ => true | _ => false end.
+Definition vseq (t : list event) : list event := filter is_vis (upto_quit (rev t)).
+Definition is_user (e : event) : bool := match e with EUser _ _ _ => true | _ => false end.
+Definition useq (t : list event) : list event := filter is_user (upto_quit (rev t)).
 
 (* a session = handler bodies (handler id = position) + top-level actions; both loops start from their initial state *)
 Definition main_obs (bodies : list (list cmd)) (acts : list action) (fuel : nat) : list outcome * list event :=
